@@ -33,7 +33,9 @@ Proof. exact K3a_centroid_unpacked. Qed.
 Theorem C13_centroid_packed : forall ls n, 0 <= n < 2^63 ->
   Forall (fun k => 0 <= k < 2^64) ls -> cpp_centroid ls n true = Some (centroid_packed ls n).
 Proof. exact K3b_centroid_packed. Qed.
-(* the two former counterexamples now agree *)
+(* instances of the two input classes on which the kernels used to differ (non 0/1 sums with
+   n <= 1; lengths that are no multiple of 8) — the recorded witnesses of the fixed defects
+   themselves run in suite cpp-corpus *)
 Theorem C13_centroid_packed_nonbinary :
   cpp_centroid [2;0;0;0;0;0;0;0] 1 true = Some (centroid_packed [2;0;0;0;0;0;0;0] 1) /\
   centroid_packed [2;0;0;0;0;0;0;0] 1 = [128].
@@ -72,6 +74,10 @@ Theorem C13_most_dissimilar_shape : forall aligned n (w : nat) Y,
 Proof. exact K7_most_dissimilar_shape. Qed.
 
 (* non-vacuity: a concrete 64-byte-wide input takes the word path and satisfies the hypotheses *)
+Example C13_centroid_packed_recorded_witness :
+  cpp_centroid [3;0;3;3;0] 3 true = Some (centroid_packed [3;0;3;3;0] 3) /\ centroid_packed [3;0;3;3;0] 3 = [176].
+Proof. vm_compute. split; reflexivity. Qed.
+
 Example C13_nonvacuous :
   let y := repeat 255 64 in let x := repeat 15 64 in
   cpp_intersection true x y = 256 /\ rows_like y [x; y] /\ bytes y /\
